@@ -1001,6 +1001,8 @@ class BinaryQuadraticModel(QuadraticViewsMixin):
             raise ValueError(f"unknown variable: {u}")
         if v not in self.variables:
             raise ValueError(f"unknown variable: {v}")
+        if u == v:
+            raise ValueError(f"cannot contract {u!r} with itself")
 
         self.add_linear(u, self.get_linear(v))
 
